@@ -154,6 +154,11 @@ def build_alphabet(lab, ents, root_of):
         add("path_of_uri:%d" % i, {"f": "path", "sid": uri})
         add("path_of_uri_cfg:%d" % i, {"f": "path", "sid": uri, "args": [lab.configs[-1]]})
         add("match_lookalike:%d" % i, {"f": "match", "sid": "zz:" + uri, "search": e})
+    # the cached building blocks of unfold_search, asked directly (public functions of spil.sid.core.utils)
+    for i, sc in enumerate([multi, "/".join(segs[:3]) + "/**", f1]):
+        add("expand:%d" % i, {"f": "expand", "search": sc})
+        add("expand_extrapolated:%d" % i, {"f": "expand", "search": sc, "args": [True]})
+        add("simple_typing:%d" % i, {"f": "simple_typing", "search": sc.replace("/**", "/*")})
     # unfold_search: every flag combination, positional and keyword
     for i, s in enumerate(searches):
         for du in (False, True):
